@@ -103,6 +103,48 @@ def _zeval(t, env, cache):
     raise NotImplementedError(f"zeval: {d.name()} kind {k}")
 
 
+def zmag(t, env, cache=None):
+    """Magnitude bound of a real term at a float point: the value computed with every leaf, constant and intermediate
+    taken in absolute value and every subtraction turned into an addition (sum of the absolute values of the terms).
+    Rounding error of a float evaluation of t is a small multiple of eps * zmag(t): the scale against which two float
+    evaluations of "the same" real expression have to be compared when cancellation is possible."""
+    if cache is None:
+        cache = {}
+    key = t.get_id()
+    if key in cache:
+        return cache[key]
+    r = _zmag(t, env, cache)
+    cache[key] = r
+    return r
+
+
+def _zmag(t, env, cache):
+    if z3.is_rational_value(t):
+        return abs(t.numerator_as_long() / t.denominator_as_long())
+    if z3.is_int_value(t):
+        return abs(float(t.as_long()))
+    d = t.decl()
+    k = d.kind()
+    ch = t.children()
+    if k == z3.Z3_OP_UNINTERPRETED:
+        return abs(zeval(t, env))
+    if k in (z3.Z3_OP_ADD, z3.Z3_OP_SUB):
+        return sum(zmag(c, env, cache) for c in ch)
+    if k == z3.Z3_OP_MUL:
+        r = 1.0
+        for c in ch:
+            r *= zmag(c, env, cache)
+        return r
+    if k == z3.Z3_OP_UMINUS:
+        return zmag(ch[0], env, cache)
+    if k == z3.Z3_OP_DIV:
+        b = zeval(ch[1], env)
+        return zmag(ch[0], env, cache) / abs(b) if b else math.inf
+    if k == z3.Z3_OP_ITE:
+        return zmag(ch[1], env, cache) if zeval(ch[0], env) else zmag(ch[2], env, cache)
+    return abs(zeval(t, env))
+
+
 def term_of(v):
     from .core import lift
 
